@@ -300,7 +300,7 @@ func runC01(w *core.W) {
 	w.ExhaustivePart(fmt.Sprintf("all sequences of <= %d lexemes over the 43-lexeme alphabet, joined by single spaces and minimally", kmax))
 	// 2. sampled longer sequences over the alphabet
 	r := w.RNG("tok-sampled")
-	for i, n := 0, w.Pick(12000, 150000); i < n; i++ {
+	for i, n := 0, w.Pick(48000, 450000); i < n; i++ {
 		k := kmax + 1 + r.Intn(3)
 		toks := make([]string, k)
 		for j := range toks {
@@ -310,12 +310,12 @@ func runC01(w *core.W) {
 	}
 	// 3. random sequences over the wide pool
 	r = w.RNG("pool")
-	for i, n := 0, w.Pick(10000, 150000); i < n; i++ {
+	for i, n := 0, w.Pick(40000, 450000); i < n; i++ {
 		run("pool", gen.RandTokens(r, gen.LexPool, 40), "pool_cases")
 	}
 	// 4. random bytes
 	r = w.RNG("bytes")
-	for i, n := 0, w.Pick(12000, 200000); i < n; i++ {
+	for i, n := 0, w.Pick(48000, 600000); i < n; i++ {
 		run("bytes", gen.RandBytes(r, 200), "bytes_cases")
 	}
 	for i, n := 0, w.Pick(2, 12); i < n; i++ {
@@ -336,7 +336,7 @@ func runC01(w *core.W) {
 	for i := 0; i < 200; i++ {
 		corpus = append(corpus, []byte(ref.Print(cfg.Node(r, 5))))
 	}
-	for i, n := 0, w.Pick(12000, 200000); i < n; i++ {
+	for i, n := 0, w.Pick(48000, 600000); i < n; i++ {
 		run("mutant", gen.Mutate(r, corpus[r.Intn(len(corpus))], corpus), "mutant_cases")
 	}
 	// 6. pathological shapes
@@ -352,7 +352,7 @@ func runC01(w *core.W) {
 	}
 	// 7. valid programs with random layout (the accept side)
 	r = w.RNG("prog")
-	for i, n := 0, w.Pick(4000, 60000); i < n; i++ {
+	for i, n := 0, w.Pick(16000, 180000); i < n; i++ {
 		t := ref.Parenthesize(cfg.Node(r, 6))
 		f := ref.Flatten(t)
 		run("prog", []byte(ref.JoinLexemes(f.Lex, gen.Layout(r, f, r.Intn(4)))), "prog_cases")
